@@ -23,6 +23,20 @@ def main():
     d = gen.gen_definition(rng, n_state=rng.choice([2, 3, 4]), n_control=rng.choice([0, 1, 2]), n_calib=rng.choice([0, 1, 2]),
                            n_sensors=rng.choice([1, 2, 3]), depth=2)
     d._kind = "ekf"
+    if k % 2 == 1:
+        # names that differ only in case (sorting must still be a total order on them)
+        taken = {x.name for x in d.all_symbols()}
+        pairs = [("q", "Q"), ("u", "U"), ("k", "K")]
+        groups = [d.state, d.control, d.calibration]
+        ren = {}
+        for (lo, up), grp in zip(pairs, groups):
+            if len(grp) >= 2 and lo not in taken and up not in taken:
+                ren[grp[0].name] = lo
+                ren[grp[1].name] = up
+        if ren:
+            full = {x.name: ren.get(x.name, x.name) for x in d.all_symbols()}
+            d = d.renamed(full)
+            d._kind = "ekf"
     process, sensor = eh.make_noises(rng, d)
     cal = {s.name: 1.25 for s in d.calibration}
     prng = random.Random(perm_seed)
@@ -43,6 +57,13 @@ def main():
     try:
         g = cppgen.generate(d, process, sensor, cal, scratch, "det", rng=None, container=container)
         h, s = open(g["header"]).read(), open(g["source"]).read()
+        # the same definition generated again in the same process (after other generations) must give the same bytes
+        other = gen.gen_definition(random.Random(perm_seed + 17), n_state=2, n_control=1, n_calib=0, n_sensors=1, depth=3)
+        other._kind = "ekf"
+        po, so = eh.make_noises(random.Random(1), other)
+        cppgen.generate(other, po, so, {}, scratch, "other", rng=None)
+        g2 = cppgen.generate(d, process, sensor, cal, scratch, "det", rng=None, container=container)
+        out["regen_same"] = (open(g2["header"]).read() == h and open(g2["source"]).read() == s)
         out["header_sha"] = hashlib.sha256(h.encode()).hexdigest()
         out["source_sha"] = hashlib.sha256(s.encode()).hexdigest()
         from formak import python
